@@ -404,8 +404,14 @@ func panicToError(p any, skip int) *testError {
 		return nil
 	}
 
+	// the whole stack up to checkOnce identifies the failure: grow the buffer until the stack fits
 	callers := make([]uintptr, tracebackLen)
-	callers = callers[:runtime.Callers(skip, callers)]
+	n := runtime.Callers(skip, callers)
+	for n == len(callers) {
+		callers = make([]uintptr, 2*len(callers))
+		n = runtime.Callers(skip, callers)
+	}
+	callers = callers[:n]
 	frames := runtime.CallersFrames(callers)
 
 	b := &strings.Builder{}
